@@ -16,7 +16,7 @@ from concurrent.futures import ThreadPoolExecutor
 
 ROOT = os.path.dirname(os.path.dirname(os.path.abspath(__file__)))
 # seeds whose change belongs to another property's clause
-ALSO = {'C16H': ['C13'], 'C07H': ['C17']}
+ALSO = {'C16H': ['C13'], 'C07H': ['C17'], 'C16J': ['C13'], 'C13I': ['C16']}
 
 
 def run(sid):
